@@ -8,7 +8,8 @@ rsync -a --exclude _build --exclude .git /repo/ $W/repo/
 ( cd $W/repo && patch -p1 -s < "$patch" ) || { echo "PATCH FAILED"; rm -rf $W; exit 3; }
 for p in $props; do
   out=$(VERIF_REPO=$W/repo VERIF_BUILD=$W/build timeout 3600 python3 /verif/tools/verif.py check $p --tier $tier 2>&1)
-  echo "mutant $(basename $(dirname $patch))/$(basename $patch) $p rc=$? $(echo "$out" | grep '^SUMMARY' | cut -c1-140)"
+  rc=$?
+  echo "mutant $(basename $(dirname $patch))/$(basename $patch) $p rc=$rc $(echo "$out" | grep '^SUMMARY' | cut -c1-140)"
   echo "$out" | grep '^VIOLATION\|^SELFTEST\|^BUILD' | head -3 | cut -c1-300
 done
 rm -rf $W
